@@ -163,6 +163,41 @@ func genC01(seed uint64, tier string) *plan.Plan {
 		// the session of the exporter under test, in the same process, must be untouched by it.
 		pl.Cfg["foreign"] = int64(1 + r.IntN(3))
 	}
+	if nSess >= 2 {
+		// A later session announces, for the same observation domain and template id, a template that
+		// differs from the first session's only in the enterprise number of some fields (an IANA element
+		// and its reverse twin have the same id, type and length): it is another template, and what the
+		// later session sends is delivered under it. A stream of its own keeps older plans as they were.
+		r3 := rand.New(rand.NewPCG(seed, 0xc01e))
+		if r3.IntN(2) == 0 {
+			first := map[int64][]int64{}
+			changed := false
+			for i, op := range pl.Ops {
+				if op.K != "tmpl" {
+					continue
+				}
+				if op.T == 0 {
+					first[op.A] = op.N
+					continue
+				}
+				base, ok := first[op.A]
+				if !ok {
+					continue
+				}
+				n := append([]int64(nil), base...)
+				for k, idx := range n {
+					if tw, ok := catalogTwin(int(idx)); ok && r3.IntN(2) == 0 {
+						n[k] = int64(tw)
+						changed = true
+					}
+				}
+				pl.Ops[i].N = n
+			}
+			if changed {
+				pl.Cfg["same_domain"] = 1
+			}
+		}
+	}
 	if hugeTTL && tr == 1 {
 		// An exporter that falls silent for longer than the collector keeps a UDP peer's handler
 		// (entities.TemplateTTL = 1800 s without a datagram; the refresh interval is set beyond the
